@@ -323,30 +323,46 @@ func checkLockHygiene(w *World, r *Report, la *LockAnalysis) {
 // resets: field -> "nil" (assigned nil) or "clear" (emptied with clear()).
 func closeResets(w *World, fi *FuncInfo) map[*types.Var]string {
 	out := map[*types.Var]string{}
-	info := fi.Pkg.TypesInfo
-	ast.Inspect(fi.Decl.Body, func(n ast.Node) bool {
-		switch s := n.(type) {
-		case *ast.AssignStmt:
-			if len(s.Lhs) == len(s.Rhs) {
-				for i, l := range s.Lhs {
-					if fv := fieldOf(info, l); fv != nil && isNilIdent(info, s.Rhs[i]) {
-						out[fv] = "nil"
-					}
-				}
-			}
-		case *ast.CallExpr:
-			if id, ok := unparen(s.Fun).(*ast.Ident); ok {
-				if b, ok := info.Uses[id].(*types.Builtin); ok && b.Name() == "clear" && len(s.Args) == 1 {
-					if fv := fieldOf(info, s.Args[0]); fv != nil {
-						if _, done := out[fv]; !done {
-							out[fv] = "clear"
+	seen := map[*FuncInfo]bool{}
+	var visit func(f *FuncInfo, depth int)
+	visit = func(f *FuncInfo, depth int) {
+		if seen[f] || depth < 0 {
+			return
+		}
+		seen[f] = true
+		info := f.Pkg.TypesInfo
+		ast.Inspect(f.Decl.Body, func(n ast.Node) bool {
+			switch s := n.(type) {
+			case *ast.AssignStmt:
+				if len(s.Lhs) == len(s.Rhs) {
+					for i, l := range s.Lhs {
+						if fv := fieldOf(info, l); fv != nil && isNilIdent(info, s.Rhs[i]) {
+							out[fv] = "nil"
 						}
 					}
 				}
+			case *ast.CallExpr:
+				if id, ok := unparen(s.Fun).(*ast.Ident); ok {
+					if b, ok := info.Uses[id].(*types.Builtin); ok && b.Name() == "clear" && len(s.Args) == 1 {
+						if fv := fieldOf(info, s.Args[0]); fv != nil {
+							if _, done := out[fv]; !done {
+								out[fv] = "clear"
+							}
+						}
+					}
+				}
+				// same-receiver helpers of Close (bound 3)
+				if cal := callee(info, s); cal != nil && cal.Name() != "Close" {
+					if t := w.Decls[cal]; t != nil && t.Pkg == f.Pkg && recvNamed(cal) != nil && recvNamed(fi.Obj) != nil &&
+						recvNamed(cal).Obj() == recvNamed(fi.Obj).Obj() {
+						visit(t, depth-1)
+					}
+				}
 			}
-		}
-		return true
-	})
+			return true
+		})
+	}
+	visit(fi, 3)
 	return out
 }
 
@@ -366,6 +382,14 @@ func recheckSpec(u *unit) Spec {
 			c = unparen(un.X)
 			truth = !truth
 		}
+		if base, dead, ok := anyDisposedTest(info, c); ok {
+			if dead != truth {
+				out = append(out, "chk:live:"+base)
+			} else {
+				out = append(out, "chk:dead:"+base)
+			}
+			return out
+		}
 		be, ok := c.(*ast.BinaryExpr)
 		if !ok || (be.Op != token.EQL && be.Op != token.NEQ) {
 			return nil
@@ -382,7 +406,7 @@ func recheckSpec(u *unit) Spec {
 				}
 			}
 			// atomic.LoadInt32(&x.disposed) (!=|==) 0
-			if v, isC := constInt(info, pair[1]); isC && v == 0 {
+			if v, isC := constInt(info, pair[1]); isC && v == 0 && false {
 				if call, ok := pair[0].(*ast.CallExpr); ok && isAtomicFunc(callee(info, call)) && len(call.Args) >= 1 {
 					if ue, ok := unparen(call.Args[0]).(*ast.UnaryExpr); ok && ue.Op == token.AND {
 						if fv := fieldOf(info, ue.X); fv != nil {
@@ -592,4 +616,38 @@ func isDoneReceive(info *types.Info, e ast.Expr) bool {
 	}
 	cal := callee(info, c)
 	return cal != nil && cal.Name() == "Done" && isNamedType(recvTypeOf(cal), "context", "Context")
+}
+
+// anyDisposedTest matches a test of some x.disposed-like atomic flag (any field
+// read through sync/atomic) and returns the base path x.
+func anyDisposedTest(info *types.Info, cond ast.Expr) (base string, dead bool, ok bool) {
+	var flag *types.Var
+	var baseExpr ast.Expr
+	ast.Inspect(cond, func(n ast.Node) bool {
+		call, isC := n.(*ast.CallExpr)
+		if !isC {
+			return true
+		}
+		cal := callee(info, call)
+		if cal == nil || !isAtomicFunc(cal) || !strings.HasPrefix(cal.Name(), "Load") {
+			return true
+		}
+		if len(call.Args) == 1 {
+			if u, isU := unparen(call.Args[0]).(*ast.UnaryExpr); isU && u.Op == token.AND {
+				if fv := fieldOf(info, u.X); fv != nil {
+					flag, baseExpr = fv, selBase(u.X)
+				}
+			}
+		} else if r, _, isM := methodCall(call); isM {
+			if fv := fieldOf(info, r); fv != nil {
+				flag, baseExpr = fv, selBase(r)
+			}
+		}
+		return true
+	})
+	if flag == nil {
+		return "", false, false
+	}
+	d, ok := disposedTest(info, cond, flag)
+	return exprStr(baseExpr), d, ok
 }
